@@ -173,8 +173,9 @@ func isStartTLSConn(conn net.Conn) bool {
 // not part of this sequential contract).
 //
 //@ func (c *Client) setCaps(caps imap.CapSet)
-//@   props C12:post,pre@call
+//@   props C12:post,pre@call C17:post
 //@   ensures c.state == old(c.state) && c.mailbox == old(c.mailbox)
+//@   ensures (c.caps == nil) == (caps == nil)
 
 //@ func (c *Client) handleCapability() (err error)
 //@   props C12:post,pre@call
@@ -412,6 +413,8 @@ func inStrings(l []string, n int, s string) bool {
 //@   callsite Client.completeCommand(cc *Client, cmd command, e error) requires cmd != nil && (e == nil ==> typ == "OK")
 //@   ensures __result("Client.deletePendingCmdByTag") != 0 ==> __ghost("completed") == old(__ghost("completed"))+1
 //@   ensures __result("Client.deletePendingCmdByTag") == 0 ==> __ghost("completed") == old(__ghost("completed")) && err != nil
+//@   props C17:post
+//@   ensures[C17] startTLS != nil ==> c.caps == nil
 
 // FETCH items: every item name written into the FETCH list was requested (no
 // item is invented or written under another option's name). That every
